@@ -2,7 +2,6 @@ package drivers
 
 import (
 	"bytes"
-	"time"
 	"context"
 	"encoding/json"
 	"errors"
@@ -10,6 +9,7 @@ import (
 	"os"
 	"path/filepath"
 	"testing"
+	"time"
 
 	"github.com/lightninglabs/lightning-node-connect/mailbox"
 
@@ -353,4 +353,3 @@ func TestC15WriteTimeout(t *testing.T) {
 		enc.Encode(map[string]any{"op": "end", "conn": "tcp", "written": total, "read": rdPos})
 	}
 }
-
